@@ -14,7 +14,7 @@ extEnd` (so every C03 theorem holds for the C03 component of every reachable bar
 _rcu_barrier_complete, crdp)` (the C03 steps `enq inc ldFlags ldFutex stFutex wake` follow as `.base`
 labels) ; `bUnlock` ; loop `bDec` (`uatomic_dec(&futex)`; mb) `bLdCnt` (`barrier_count == 0` → `bPut`)
 `bWaitLd` / `bWaitFx` / `bSpurious` (`call_rcu_completion_wait`) ; `bPut` (`urcu_ref_put`, return).
-`_rcu_barrier_complete()` running on helper `h` as callback `mark b h'`:
+`_rcu_barrier_complete()` running on helper `h` as the callback tagged `mark id = some (b, h')`:
 `mSub` (`uatomic_sub_return(&barrier_count, 1)`) ; if zero `mLdFut` `mStFut` `mWake`
 (`call_rcu_completion_wake_up`) ; `mPut` (`urcu_ref_put`, `free(work)`).
 
@@ -44,6 +44,7 @@ structure BState where
   cov     : Nat → Nat → Bool     -- ghost
   hs      : Nat → List Nat       -- ghost: helpers that got / will get a marker
   todo    : Nat → List Nat       -- helpers still to be given a marker (list iteration)
+  mid     : Nat → Nat → Nat      -- ghost: id of the marker of barrier b queued on helper h
   inited  : Nat → Bool
   mdone   : Nat → Nat → Bool
   mput    : Nat → Nat → Bool
@@ -55,20 +56,20 @@ structure BState where
 
 def binit : BState :=
   { base := init, bpc := fun _ => .idle, nextB := 0, caller := fun _ => 0, cnt := fun _ => 0, fut := fun _ => 0,
-    ref := fun _ => 0, bfreed := fun _ => false, cov := fun _ _ => false, hs := fun _ => [], todo := fun _ => [],
+    ref := fun _ => 0, bfreed := fun _ => false, cov := fun _ _ => false, hs := fun _ => [], todo := fun _ => [], mid := fun _ _ => 0,
     inited := fun _ => false, mdone := fun _ _ => false, mput := fun _ _ => false, cput := fun _ => false,
     mpc := fun _ => .idle, returned := fun _ => false, uaf := false, refused := 0 }
 
 inductive BLabel
   | base (l : Label)
-  | bRefused (t : Nat) | bCall (t : Nat) | bLock (t : Nat) | bInit (t : Nat) | bEnq (t : Nat) | bUnlock (t : Nat)
+  | bRefused (t : Nat) | bCall (t : Nat) | bLock (t : Nat) | bInit (t : Nat) | bEnq (t id : Nat) | bUnlock (t : Nat)
   | bDec (t : Nat) | bLdCnt (t : Nat) | bWaitLd (t : Nat) | bWaitFx (t : Nat) (o : FOut) | bSpurious (t : Nat) | bPut (t : Nat)
   | mSub (h : Nat) | mLdFut (h : Nat) | mStFut (h : Nat) | mWake (h : Nat) | mPut (h : Nat)
   deriving DecidableEq, Repr
 
 /-- hooks are not available to the environment of this layer -/
 def Label.isHook : Label → Bool
-  | .extBegin _ | .extEnd _ | .extLock _ | .extUnlock _ | .extCall _ _ _ | .envPause _ _ => true
+  | .extBegin _ | .extEnd _ | .extLock _ | .extUnlock _ | .extCall _ _ _ _ | .envPause _ _ => true
   | _ => false
 
 /-- a user callback that has been queued and has not finished -/
@@ -82,8 +83,8 @@ def upd2 (f : Nat → Nat → Bool) (b h : Nat) (v : Bool) : Nat → Nat → Boo
 /-- the marker callback running on helper `h`, if any -/
 def curMark (s : State) (h : Nat) : Option (Nat × Nat) :=
   match s.cur h with
-  | some (.mark b h') => if s.hpc h = .run then some (b, h') else none
-  | _ => none
+  | some id => if s.hpc h = .run then s.mark id else none
+  | none => none
 
 def bstep (c : Cfg) (s : BState) : BLabel → Option BState
   | .base l =>
@@ -125,13 +126,13 @@ def bstep (c : Cfg) (s : BState) : BLabel → Option BState
                     cnt := upd s.cnt b s.base.list.length, ref := upd s.ref b (s.base.list.length + 1),
                     uaf := s.uaf || s.bfreed b }
     | _ => none
-  | .bEnq t =>
+  | .bEnq t id =>
     match s.bpc t with
     | .loop b =>
       match s.todo b with
       | h :: rest =>
-        match step c s.base (.extCall t b h) with
-        | some b' => some { s with base := b', todo := upd s.todo b rest }
+        match step c s.base (.extCall t id b h) with
+        | some b' => some { s with base := b', todo := upd s.todo b rest, mid := fun b' h' => if b' = b ∧ h' = h then id else s.mid b' h' }
         | none => none
       | [] => none
     | _ => none
